@@ -20,6 +20,7 @@ type Exec struct {
 	baseSyms    map[string]Term
 	mapValSorts map[string]Sort
 	baseCounter int
+	curCall     *ssa.CallCommon // the call being executed (dynamic-target resolution)
 	entry       *State // snapshot of the unit's entry state (for old())
 	depth       int
 	safety      bool // generate no-panic obligations
